@@ -45,7 +45,7 @@ func builtinStringFromCharCode(call FunctionCall) Value {
 func builtinStringCharAt(call FunctionCall) Value {
 	checkObjectCoercible(call.runtime, call.This)
 	idx := int(call.Argument(0).number().int64)
-	chr := stringAt(call.This.object().stringValue(), idx)
+	chr := stringAt(newStringObject(call.This.string()), idx)
 	if chr == utf8.RuneError {
 		return stringValue("")
 	}
@@ -55,7 +55,7 @@ func builtinStringCharAt(call FunctionCall) Value {
 func builtinStringCharCodeAt(call FunctionCall) Value {
 	checkObjectCoercible(call.runtime, call.This)
 	idx := int(call.Argument(0).number().int64)
-	chr := stringAt(call.This.object().stringValue(), idx)
+	chr := stringAt(newStringObject(call.This.string()), idx)
 	if chr == utf8.RuneError {
 		return NaNValue()
 	}
